@@ -93,6 +93,10 @@ structure Env where
   enumOf : Bytes → Option Nat
   /-- `ElementName::to_str` -/
   elemText : Nat → Bytes
+  /-- `AttributeName::to_str` -/
+  attrText : Nat → Bytes
+  nmIndex : Nat          -- ElementName::Index
+  nmDefinitionRef : Nat  -- ElementName::DefinitionRef
   latest : Nat   -- AutosarVersion::LATEST
   nmDest : Nat   -- AttributeName::Dest (same as Spec.atDest)
 
